@@ -297,13 +297,51 @@ class Check(Property):
                     break
         return v[:6]
 
+    def refused_edit_probe(self):
+        """an edit that is refused part-way (removing a unit / a used group that is not there, after others that are): whatever the
+        group holds afterwards, its members - and those of every group and system using it - are the closure of what it holds"""
+        v = []
+        try:
+            u = regs.fresh("float")
+            inner, outer, side = u.get_group("g14in"), u.get_group("g14out"), u.get_group("g14side")
+            inner.add_units("meter", "second", "gram")
+            side.add_units("inch", "foot")
+            outer.add_units("kelvin")
+            outer.add_groups("g14in", "g14side")
+
+            def closure(g):
+                out = set(g._unit_names)
+                for n in g._used_groups:
+                    out |= closure(u.get_group(n))
+                return out
+
+            def judge(label):
+                for g in (inner, outer, side):
+                    got, want = set(g.members), closure(g)
+                    if got != want:
+                        v.append(f"C14 {label}: group {g.name} holds units {sorted(g._unit_names)} and uses {sorted(g._used_groups)}, so its "
+                                 f"members are {sorted(want)}; members answers {sorted(got)}")
+            judge("after building three groups")
+            for label, fn in (("inner.remove_units('meter', 'nope')", lambda: inner.remove_units("meter", "nope")),
+                              ("outer.remove_groups('g14side', 'zzz')", lambda: outer.remove_groups("g14side", "zzz")),
+                              ("inner.remove_units('nope', 'second')", lambda: inner.remove_units("nope", "second")),
+                              ("outer.remove_units('kelvin', 'kelvin')", lambda: outer.remove_units("kelvin", "kelvin"))):
+                try:
+                    fn()
+                except Exception:  # noqa: BLE001
+                    pass
+                judge("after the refused " + label)
+        except Exception as exc:  # noqa: BLE001
+            v.append(f"C14 refused-edit probe raised {type(exc).__name__}: {exc}")
+        return v[:6]
+
     def oracle(self, c):
         P = regs.pools()
         proj = P.proj
         v = []
         if not getattr(self, "_ctor_done", False):
             self._ctor_done = True
-            cv = self.constructor_probe()
+            cv = self.constructor_probe() + self.refused_edit_probe()
             if cv:
                 return cv
         u = regs.ureg("fraction")
